@@ -51,6 +51,8 @@ pub struct Cov {
     pub arena_drop_faults: u32,
     pub handle_clone_froms: u32,
     pub plain_root_walks: u32,
+    pub rootless_calls: u32,
+    pub rootless_panics: u32,
     pub sweep_drop_faults: u32,
     pub arena_drops_unwinding: u32,
     pub faults_trace: u32,
@@ -94,7 +96,7 @@ impl Cov {
         add!(
             steps, ops, ops_skipped, allocs, adoptions, cycles_completed, collect_calls, work_units, settles, settle_nontrivial,
             garbage_cycle_at_settle, weak_queries, weak_q_sweeping_weakonly, upgrade_store_active, upgrade_none_live,
-            callbacks_with_debt_active_temps, arena_drop_with_shell, arena_drop_faults, handle_clone_froms, plain_root_walks, sweep_drop_faults, arena_drops_unwinding, faults_trace, faults_callback, faults_ctor, used_after_fault,
+            callbacks_with_debt_active_temps, arena_drop_with_shell, arena_drop_faults, handle_clone_froms, plain_root_walks, rootless_calls, rootless_panics, sweep_drop_faults, arena_drops_unwinding, faults_trace, faults_callback, faults_ctor, used_after_fault,
             finalize_calls, finalize_after_mutation, resurrect_dead_with_child, resurrect_calls, stash_active, slot_reuse_live,
             foreign_fetch, other_arena_active, barrier_black_nontracing, barrier_black_tracing, taint_skips, c09_tracked_cycles,
             c09_bound_checks, c09_sleep_checks, c09_multi_call_cycles, c09_sleep_crossed, c09_credit_checks, convert_ops
@@ -132,7 +134,7 @@ impl Cov {
             "weak_queries": self.weak_queries, "weak_queries_sweeping_weak_only": self.weak_q_sweeping_weakonly,
             "upgrade_and_store_while_active": self.upgrade_store_active, "upgrade_refused_live_weak_only_sweeping": self.upgrade_none_live,
             "callbacks_with_debt_active_phase_and_temps": self.callbacks_with_debt_active_temps,
-            "arena_drops_by_phase_S_Mk_Md_Sw": self.arena_drop_phase, "arena_drops_with_shell": self.arena_drop_with_shell, "arena_drops_with_destructor_panic": self.arena_drop_faults, "handle_clone_from_calls": self.handle_clone_froms, "plain_root_protocol_walks": self.plain_root_walks, "collection_calls_with_destructor_panic": self.sweep_drop_faults, "arena_drops_while_unwinding": self.arena_drops_unwinding,
+            "arena_drops_by_phase_S_Mk_Md_Sw": self.arena_drop_phase, "arena_drops_with_shell": self.arena_drop_with_shell, "arena_drops_with_destructor_panic": self.arena_drop_faults, "handle_clone_from_calls": self.handle_clone_froms, "plain_root_protocol_walks": self.plain_root_walks, "rootless_mutate_calls": self.rootless_calls, "rootless_mutate_calls_with_panic": self.rootless_panics, "collection_calls_with_destructor_panic": self.sweep_drop_faults, "arena_drops_while_unwinding": self.arena_drops_unwinding,
             "faults_trace": self.faults_trace, "faults_callback": self.faults_callback, "faults_ctor_or_map_root": self.faults_ctor,
             "steps_after_a_fault": self.used_after_fault, "finalize_calls": self.finalize_calls, "finalize_after_mutation": self.finalize_after_mutation,
             "resurrect_calls": self.resurrect_calls, "resurrect_dead_with_child": self.resurrect_dead_with_child,
